@@ -148,8 +148,8 @@ def refute_and_replay(pid, g, gres, fails, woven, scratch):
     if not found:
         rec['note'] = 'no-failing-input-found: the violation is the failed obligation above (it is discharged on the unchanged tree); no concrete input reproduced it natively within the refuter bounds'
     try:
-        rec['repo_head'] = subprocess.check_output(['git', '-C', REPO, 'rev-parse', '--short', 'HEAD']).decode().strip()
-        rec['repo_diff_stat'] = subprocess.check_output(['git', '-C', REPO, 'diff', '--stat']).decode()[-800:]
+        rec['repo_head'] = subprocess.check_output(['git', '-C', REPO, 'rev-parse', '--short', 'HEAD'], stderr=subprocess.DEVNULL).decode().strip()
+        rec['repo_diff_stat'] = subprocess.check_output(['git', '-C', REPO, 'diff', '--stat'], stderr=subprocess.DEVNULL).decode()[-800:]
     except Exception:
         pass
     h = hashlib.sha1(json.dumps([pid, gres['id'], [f['name'] for f in fails]]).encode()).hexdigest()[:10]
